@@ -116,11 +116,22 @@ def finish(pid, tier, results, info, replay_fn=None, t0=None, seed=0):
           'wall_s': round(wall, 2), 'violations': len(viol_lines)}
     if not ev['coverage']['explanation']:
         ev['coverage']['explanation'] = 'obligations/discharged count real-width (unbounded) CBMC obligations only; bounded_obligations/bounded_discharged count obligations of bounded jobs (scaled width or unwound loops) and are never added to the proof count'
+    # the evidence level is the level claimed in MANIFEST.json for this property (never higher)
+    try:
+        man = json.load(open(os.path.join(VERIF, 'MANIFEST.json')))
+        claimed = [c['level_claimed']['category'] for c in man['checks'] if c['property_id'] == pid]
+        if claimed: ev['level'] = claimed[0]
+    except Exception:
+        pass
     if ev['level'] == 'proof' and n_obl == 0:
         # every obligation of this run is bounded: not a proof-level record
         ev['level'] = 'other'
-        ev['coverage']['explanation'] += ' | All obligations of this run are BOUNDED (exhaustive up to the stated bound); nothing is counted as proved.'
-        del ev['coverage']['obligations']; del ev['coverage']['discharged']
+    if ev['level'] != 'proof':
+        if n_obl == 0:
+            ev['coverage']['explanation'] += ' | All obligations of this run are BOUNDED (exhaustive up to the stated bound); nothing is counted as proved.'
+            del ev['coverage']['obligations']; del ev['coverage']['discharged']
+        else:
+            ev['coverage']['explanation'] += ' | The clause that carries the property is decided by BOUNDED jobs only (exhaustive up to the stated bound); the real-width obligations counted under obligations/discharged are supporting facts (absence of undefined behaviour, frames, typestate), so the record is not a proof-level one.'
     json.dump(ev, open(os.path.join(VERIF, 'evidence', pid + '.json'), 'w'), indent=1)
     for l in known_lines: print(l)
     for l in viol_lines: print(l)
